@@ -248,6 +248,10 @@ func Rich(t *rapid.T, o RichOpts) play.History {
 			m = script.CMsg{K: "P", Name: rapid.SampledFrom(richStmtNames).Draw(t, "stmt"), Query: q(), OIDs: rapid.SliceOfN(rapid.Uint32(), 0, 3).Draw(t, "oids")}
 		case k <= 10:
 			m = script.CMsg{K: "B", Portal: rapid.SampledFrom(richPortalNames).Draw(t, "portal"), Name: rapid.SampledFrom(richStmtNames).Draw(t, "stmt"), Params: params(), PFmts: fm(), RFmts: fm()}
+		case k == 12 && rapid.Bool().Draw(t, "describe-twice"):
+			// the same Describe twice in a row (drivers describe a named statement before every execution)
+			m = script.CMsg{K: "D", Kind: rapid.SampledFrom([]byte{'S', 'S', 'P'}).Draw(t, "kind"), Name: rapid.SampledFrom(richStmtNames).Draw(t, "stmt"), Portal: rapid.SampledFrom(richPortalNames).Draw(t, "portal")}
+			h.Msgs = append(h.Msgs, m, script.CMsg{K: "S"})
 		case k <= 12:
 			m = script.CMsg{K: "D", Kind: rapid.SampledFrom([]byte{'S', 'P', 'S', 'P', 'X', 0}).Draw(t, "kind"), Name: rapid.SampledFrom(richStmtNames).Draw(t, "stmt"), Portal: rapid.SampledFrom(richPortalNames).Draw(t, "portal")}
 		case k <= 15:
